@@ -1,5 +1,6 @@
 From Coq Require Import Extraction ExtrOcamlBasic.
-From PV Require Import Lib.ExtractBase Lib.Table Model.Sample Gen.GrpcStatusGen Model.GrpcStatus Model.Shoot.
+From PV Require Import Lib.ExtractBase Lib.Table Model.Sample Gen.GrpcStatusGen Model.GrpcStatus Model.Shoot Model.ShootEvents.
 Extraction Language OCaml.
 Extraction "extracted/C10_model.ml" xb_types grpc_code doc_code autotag_go autotag_spec shoot_tags get_errno ids_from empty_tag
-  base_shoot base_spec hscen_shoot hscen_spec gscen_shoot gscen_spec grpc_shoot gcall_code.
+  base_shoot base_spec hscen_shoot hscen_spec gscen_shoot gscen_spec grpc_shoot gcall_code
+  base_shoot_ev hscen_ev gscen_ev grpc_ev at_report at_end late_writes handoff_ok.
